@@ -5,6 +5,9 @@
  * Keys are boxed integers: for every key VALUE there are `no` distinct key
  * OBJECTS (separate vrt_alloc blocks) and `no` distinct value objects, so
  * "the stored key/value pointers stay untouched" is observable by address.
+ * The NULL pointer is itself one legal key (key object 0 of value 0; the
+ * comparison maps NULL to value 0 without dereferencing it), stored and reported
+ * like any other key pointer.
  * A share of the entries is inserted with a NULL value pointer (legal: the
  * value is an opaque void *); the model then stores NULL as the value pointer
  * and every report (insert-existing, find, erase, clear callback) must show it.
@@ -48,7 +51,8 @@ struct kobj { uint32_t magic; int val, obj, stored; uint64_t pad; };
 struct vobj { uint32_t magic; int val, obj, stored; uint64_t pad; };
 
 struct ment {
-    struct kobj *k;             /* stored key pointer, NULL = value absent */
+    int present;                /* the value is in the map */
+    struct kobj *k;             /* stored key pointer; NULL for the NULL-pointer key (value 0, key object 0) */
     struct vobj *v;             /* stored value pointer; may be NULL while the value is present */
     void *blk;                  /* library block allocated by the insert */
     const void *handed_k;       /* clear bookkeeping: key pointer handed over (never dereferenced) */
@@ -77,9 +81,14 @@ enum { SIG_ABSTRACT = 0, SIG_SHAPE = 1, SIG_HISTORY = 2 };
 /* ------------------------------------------------------------------ */
 /* boxed keys and values                                               */
 /* ------------------------------------------------------------------ */
+/* The NULL pointer is one legal key (the `(void *)(intptr_t)id` idiom with id 0: keys are opaque to
+ * the map, only the caller's comparison interprets them): key object 0 of value 0 IS the NULL pointer. */
+static int is_null_key(int v, int o) { return v == 0 && o == 0; }
 static struct kobj *getk(int v, int o)
 {
-    struct kobj *k = K[v][o];
+    struct kobj *k;
+    if (is_null_key(v, o)) return NULL;
+    k = K[v][o];
     if (k == NULL) {
         k = vrt_alloc(sizeof(*k));
         memset(k, 0x4b, sizeof(*k));
@@ -106,30 +115,39 @@ static void release_objs(int v)
 {
     struct kobj *k = M[v].k;
     struct vobj *x = M[v].v;
-    K[v][k->obj] = NULL;
-    memset(k, 0xa5, sizeof(*k));
-    vrt_free(k);
+    if (k != NULL) {            /* the NULL-pointer key has no object */
+        K[v][k->obj] = NULL;
+        memset(k, 0xa5, sizeof(*k));
+        vrt_free(k);
+    }
     if (x != NULL) {            /* entries may carry a NULL value pointer */
         V[v][x->obj] = NULL;
         memset(x, 0xa5, sizeof(*x));
         vrt_free(x);
     }
-    M[v].k = NULL; M[v].v = NULL;
+    M[v].k = NULL; M[v].v = NULL; M[v].present = 0;
 }
 
+/* value of a key as the comparison sees it: the NULL pointer is the key of value 0 (never dereferenced),
+ * anything else must be a live key object */
+static int key_value(const void *a)
+{
+    const struct kobj *x = a;
+    if (x == NULL) { VRT_COUNT("cmp.null-key-argument"); return 0; }
+    VRT_CHECK(x->magic == KMAGIC, "map.cmp.non-key", "comparison called with something that is not a live key object");
+    return x->val;
+}
 static int cmp_common(const void *a, const void *b, void *p)
 {
-    const struct kobj *x = a, *y = b;
+    int x, y;
     VRT_CHECK(p == (void *)&cmp_cookie, "map.cmp.priv", "comparison called with priv %p, map was initialised with %p",
               p, (void *)&cmp_cookie);
-    VRT_CHECK(x != NULL && y != NULL, "map.cmp.null-key", "comparison called with a NULL key");
-    VRT_CHECK(x->magic == KMAGIC && y->magic == KMAGIC, "map.cmp.non-key",
-              "comparison called with something that is not a live key object");
+    x = key_value(a); y = key_value(b);
     ncmp++;
-    return (x->val > y->val) - (x->val < y->val);
+    return (x > y) - (x < y);
 }
 /* two different functions: ascending returns arbitrary magnitudes, descending +-1 */
-static int cmp_asc(const void *a, const void *b, void *p) { return 3 * cmp_common(a, b, p) * (1 + ((const struct kobj *)a)->val % 5); }
+static int cmp_asc(const void *a, const void *b, void *p) { return 3 * cmp_common(a, b, p) * (1 + key_value(a) % 5); }
 static int cmp_desc(const void *a, const void *b, void *p) { return -cmp_common(a, b, p); }
 
 /* ------------------------------------------------------------------ */
@@ -236,25 +254,28 @@ static void check_find(int v, int po, const char *ctx, cstl_map_iterator_t *out)
     struct kobj *k = getk(v, po);
     cstl_map_iterator_t i;
     memset(&i, 0x5a, sizeof(i));
-    vrt_state(M[v].k ? (M[v].k == k ? "present-same-key-object" : "present-other-key-object") : (Mn ? "absent" : "empty"));
+    vrt_state(M[v].present ? (M[v].k == k ? "present-same-key-object" : "present-other-key-object") : (Mn ? "absent" : "empty"));
     VRT_OP2("map.find", "v%ld key#%ld", v, po);
     vrt_ev_begin();
     cstl_map_find(map, k, &i);
-    if (M[v].k != NULL) {
+    if (M[v].present) {
         if (cstl_map_iterator_eq(&i, END))
             FAILK(ctx, "present.is-end", "value %d is in the map but find yields the end iterator", v);
         if (i.key != M[v].k)
             FAILK(ctx, "present.key", "value %d: find yields key pointer %p, the stored key pointer is %p (object #%d)",
-                  v, i.key, (void *)M[v].k, M[v].k->obj);
+                  v, i.key, (void *)M[v].k, M[v].k ? M[v].k->obj : 0);
         if (i.val != M[v].v)
             FAILK(ctx, "present.val", "value %d: find yields value pointer %p, the stored value pointer is %p",
                   v, i.val, (void *)M[v].v);
         VRT_COUNT("op.find.present");
         if (M[v].k != k) VRT_COUNT("op.find.present.other-key-object");
         if (M[v].v == NULL) VRT_COUNT("op.find.present.null-value");
+        if (M[v].k == NULL) VRT_COUNT("op.find.null-key.present");          /* the stored key pointer is NULL */
+        else if (k == NULL) VRT_COUNT("op.find.null-key.probe-other-stored");
     } else {
         is_end(&i, ctx, v);
         VRT_COUNT("op.find.absent");
+        if (k == NULL) VRT_COUNT("op.find.null-key.absent");
     }
     alloc_none(ctx);
     if (out) *out = i;
@@ -263,8 +284,8 @@ static void check_find(int v, int po, const char *ctx, cstl_map_iterator_t *out)
 static void where_counts(int v)
 {
     int lo = 0, hi = 0, u;
-    for (u = v - 1; u >= 0 && !lo; u--) lo = M[u].k != NULL;
-    for (u = v + 1; u < nv && !hi; u++) hi = M[u].k != NULL;
+    for (u = v - 1; u >= 0 && !lo; u--) lo = M[u].present;
+    for (u = v + 1; u < nv && !hi; u++) hi = M[u].present;
     if (lo && hi) VRT_COUNT("op.insert.new.between");
     else if (lo) VRT_COUNT("op.insert.new.above-all");
     else if (hi) VRT_COUNT("op.insert.new.below-all");
@@ -277,15 +298,16 @@ static void do_insert(int v, int ko, int vo, int with_it, cstl_map_iterator_t *o
     struct vobj *x = getv(v, vo);
     struct kobj *const ok = M[v].k;
     struct vobj *const ov = M[v].v;
+    const int present = M[v].present;
     cstl_map_iterator_t i;
     int r;
 
     memset(&i, 0x5a, sizeof(i));
-    vrt_state(ok ? (ok == k ? "existing-same-key-object" : "existing-other-key-object") : (Mn ? "new" : "new-into-empty"));
+    vrt_state(present ? (ok == k ? "existing-same-key-object" : "existing-other-key-object") : (Mn ? "new" : "new-into-empty"));
     VRT_OP4("map.insert", "v%ld key#%ld val#%ld iter=%ld", v, ko, vo, with_it);
     vrt_ev_begin();
     r = cstl_map_insert(map, k, x, with_it ? &i : NULL);
-    if (ok != NULL) {
+    if (present) {
         VRT_CHECK(r == 1, "map.insert.existing.ret", "insert of existing value %d returned %d, expected 1", v, r);
         if (with_it) {
             VRT_CHECK(!cstl_map_iterator_eq(&i, END), "map.insert.existing.iter-is-end",
@@ -300,6 +322,9 @@ static void do_insert(int v, int ko, int vo, int with_it, cstl_map_iterator_t *o
         alloc_none("insert.existing");
         VRT_COUNT("op.insert.existing");
         if (ok != k) VRT_COUNT("op.insert.existing.other-key-object");
+        if (ok == NULL) VRT_COUNT("op.insert.existing.stored-null-key");
+        if (ok == NULL && k != NULL) VRT_COUNT("op.insert.existing.stored-null-key.other-key-object");
+        if (ok != NULL && k == NULL) VRT_COUNT("op.insert.existing.offered-null-key");
         if (ov != x) VRT_COUNT("op.insert.existing.other-value-object");
         if (ov == NULL) VRT_COUNT("op.insert.existing.stored-null-value");
         if (x == NULL && ov != NULL) VRT_COUNT("op.insert.existing.offered-null-value");
@@ -318,7 +343,8 @@ static void do_insert(int v, int ko, int vo, int with_it, cstl_map_iterator_t *o
                       v, i.val, (void *)x);
         }
         M[v].blk = alloc_one("insert.new");
-        M[v].k = k; M[v].v = x; k->stored = 1;
+        M[v].present = 1; M[v].k = k; M[v].v = x;
+        if (k != NULL) k->stored = 1; else VRT_COUNT("op.insert.null-key");
         if (x != NULL) x->stored = 1; else VRT_COUNT("op.insert.null-value");
         Mn++;
         alloc_live("insert.new");
@@ -345,15 +371,16 @@ static void do_erase(int v, int po, int with_it, int level)
     struct kobj *k = getk(v, po);
     struct kobj *const ok = M[v].k;
     struct vobj *const ov = M[v].v;
+    const int present = M[v].present;
     cstl_map_iterator_t i;
     int r;
 
     memset(&i, 0x5a, sizeof(i));
-    vrt_state(ok ? (ok == k ? "present-same-key-object" : "present-other-key-object") : (Mn ? "absent" : "empty"));
+    vrt_state(present ? (ok == k ? "present-same-key-object" : "present-other-key-object") : (Mn ? "absent" : "empty"));
     VRT_OP3("map.erase", "v%ld key#%ld iter=%ld", v, po, with_it);
     vrt_ev_begin();
     r = cstl_map_erase(map, k, with_it ? &i : NULL);
-    if (ok != NULL) {
+    if (present) {
         VRT_CHECK(r == 0, "map.erase.present.ret", "erase of present value %d returned %d, expected 0", v, r);
         if (with_it) {
             VRT_CHECK(i.key == ok, "map.erase.present.iter-key",
@@ -364,6 +391,7 @@ static void do_erase(int v, int po, int with_it, int level)
         }
         alloc_freed("erase.present", v);
         if (ov == NULL) VRT_COUNT("op.erase.present.null-value");
+        if (ok == NULL) VRT_COUNT("op.erase.null-key");
         model_remove(v);
         alloc_live("erase.present");
         VRT_COUNT("op.erase.present");
@@ -381,7 +409,7 @@ static void do_erase(int v, int po, int with_it, int level)
 static void do_erase_it(int v, int po, int vo, int via_insert, int level)
 {
     cstl_map_iterator_t i;
-    const int was_present = M[v].k != NULL;
+    const int was_present = M[v].present;
 
     if (via_insert) do_insert(v, po, vo, 1, &i, 0);
     else check_find(v, po, "erase_iterator.find", &i);
@@ -392,6 +420,7 @@ static void do_erase_it(int v, int po, int vo, int via_insert, int level)
     cstl_map_erase_iterator(map, &i);
     alloc_freed("erase_iterator", v);
     if (M[v].v == NULL) VRT_COUNT("op.erase_iterator.null-value");
+    if (M[v].k == NULL) VRT_COUNT("op.erase_iterator.null-key");
     model_remove(v);
     alloc_live("erase_iterator");
     if (!via_insert) VRT_COUNT("op.erase_iterator.from-find");
@@ -414,7 +443,7 @@ static void clear_cb(void *e, void *p)
     VRT_CHECK(i != NULL, "map.clear.cb-null-iterator", "clear callback got a NULL iterator");
     if (nv <= 64) {
         /* classify by address before touching anything */
-        for (v = 0; v < nv; v++) if (M[v].k != NULL && (const void *)M[v].k == i->key) break;
+        for (v = 0; v < nv; v++) if (M[v].present && (const void *)M[v].k == i->key) break;
         if (v == nv) {
             for (v = 0; v < nv; v++)
                 VRT_CHECK(!(M[v].handed && M[v].handed_k == i->key), "map.clear.cb-twice",
@@ -423,11 +452,17 @@ static void clear_cb(void *e, void *p)
         }
     }
     k = i->key;
-    VRT_CHECK(k != NULL && k->magic == KMAGIC, "map.clear.cb-non-key",
-              "clear callback got a key pointer that is not a live key object (not stored, or handed over before)");
-    v = k->val;
-    VRT_CHECK(v >= 0 && v < nv && M[v].k == k, "map.clear.cb-not-an-entry",
-              "clear callback got key object %p (value %d) which is not the stored key of that entry", (const void *)k, v);
+    if (k == NULL) {
+        v = 0;                  /* the NULL-pointer key identifies the entry of value 0 */
+    } else {
+        VRT_CHECK(k->magic == KMAGIC, "map.clear.cb-non-key",
+                  "clear callback got a key pointer that is not a live key object (not stored, or handed over before)");
+        v = k->val;
+    }
+    VRT_CHECK(!(v >= 0 && v < nv && M[v].handed && M[v].handed_k == (const void *)k), "map.clear.cb-twice",
+              "clear callback invoked a second time for the entry of value %d", v);
+    VRT_CHECK(v >= 0 && v < nv && M[v].present && M[v].k == k, "map.clear.cb-not-an-entry",
+              "clear callback got key pointer %p (value %d) which is not the stored key of that entry", (const void *)k, v);
     VRT_CHECK(!M[v].handed, "map.clear.cb-twice", "clear callback invoked a second time for the entry of value %d", v);
     VRT_CHECK(i->val == (void *)M[v].v, "map.clear.cb-val",
               "clear callback for value %d got value pointer %p, the stored value pointer is %p", v, i->val, (void *)M[v].v);
@@ -436,6 +471,7 @@ static void clear_cb(void *e, void *p)
     M[v].handed_k = k;
     clr_seen++;
     if (M[v].v == NULL) VRT_COUNT("clear.handed-over.null-value");
+    if (k == NULL) VRT_COUNT("clear.handed-over.null-key");
     release_objs(v);            /* poison + free: the map must not look at them again */
     VRT_COUNT("clear.handed-over");
 }
@@ -475,10 +511,10 @@ static void do_clear(int nullcb, int level)
             VRT_CHECK(s.overflow, "map.clear.alloc.not-all-freed", "clear left the node block of value %d allocated", v);
             M[v].blk = NULL;
         }
-        if (M[v].k != NULL) {          /* NULL callback: the objects stay with the harness */
-            M[v].k->stored = 0;
+        if (M[v].present) {            /* NULL callback: the objects stay with the harness */
+            if (M[v].k != NULL) M[v].k->stored = 0;
             if (M[v].v != NULL) M[v].v->stored = 0;
-            M[v].k = NULL; M[v].v = NULL;
+            M[v].k = NULL; M[v].v = NULL; M[v].present = 0;
             cnt++;
         }
     }
@@ -514,7 +550,7 @@ static void btab_build(void)
     int v;
     for (bcap = 16; bcap < (size_t)4 * nv; bcap *= 2) ;
     memset(btab, 0, bcap * sizeof(btab[0]));
-    for (v = 0; v < nv; v++) if (M[v].k != NULL) {
+    for (v = 0; v < nv; v++) if (M[v].present) {
         size_t h = ((uintptr_t)M[v].blk >> 4) * 0x9e3779b97f4a7c15ull >> 40 & (bcap - 1);
         while (btab[h].blk != NULL) h = (h + 1) & (bcap - 1);
         btab[h].blk = M[v].blk; btab[h].v = v;
@@ -585,7 +621,7 @@ static uint64_t sig_abstract(void)
     uint64_t h = 0xc08 + nv * 8 + no * 2 + desc;
     int v;
     for (v = 0; v < nv; v++)
-        h = vrt_mix(h, M[v].k ? 1 + M[v].k->obj + 4 * (M[v].v ? M[v].v->obj : VO_NULL) : 0);
+        h = vrt_mix(h, M[v].present ? 1 + (M[v].k ? M[v].k->obj : 0) + 4 * (M[v].v ? M[v].v->obj : VO_NULL) : 0);
     return h;
 }
 static uint64_t st_sig(void)
@@ -607,10 +643,10 @@ static void audit_full(void)
     alloc_live("audit");
     for (v = 0; v < nv; v++) {
         for (o = 0; o < no; o++) check_find(v, o, "audit.find", NULL);
-        if (M[v].k != NULL) {
+        if (M[v].present) {
             VRT_CHECK(vrt_lib_block(M[v].blk, NULL) == M[v].blk, "map.audit.alloc.node-block-gone",
                       "the block allocated by the insert of value %d is no longer live", v);
-            VRT_CHECK(M[v].k->magic == KMAGIC && M[v].k->val == v
+            VRT_CHECK((M[v].k == NULL ? v == 0 : (M[v].k->magic == KMAGIC && M[v].k->val == v))
                       && (M[v].v == NULL || (M[v].v->magic == VMAGIC && M[v].v->val == v)),
                       "map.audit.object-damaged", "stored key/value object of value %d was overwritten", v);
         }
@@ -652,7 +688,7 @@ static int apply_ex(uint32_t op, int level)
         do_erase(v, ko, fl, level);
         break;
     case K_ERASE_IT:
-        if (!fl && M[v].k == NULL) return 0;    /* no iterator to be had from a find */
+        if (!fl && !M[v].present) return 0;    /* no iterator to be had from a find */
         do_erase_it(v, ko, vo, fl, level);
         break;
     case K_SIZE:
@@ -776,9 +812,9 @@ static void st_probe(int pi)
     /* fresh fill / erase under the model: the map must behave like a new one */
     for (j = 0; j < nv; j++) {
         v = pi ? nv - 1 - j : (j * 3 + 1) % nv;         /* descending resp. a stride order */
-        if (M[v].k == NULL) apply_ex(OP(K_INSERT, v, j % no, j % 3 == 1 ? VO_NULL : (j + 1) % no, j & 1), 2);
+        if (!M[v].present) apply_ex(OP(K_INSERT, v, j % no, j % 3 == 1 ? VO_NULL : (j + 1) % no, j & 1), 2);
     }
-    for (v = 0; v < nv; v++) if (M[v].k == NULL) apply_ex(OP(K_INSERT, v, 0, 0, 1), 2);
+    for (v = 0; v < nv; v++) if (!M[v].present) apply_ex(OP(K_INSERT, v, 0, 0, 1), 2);
     apply_ex(OP(K_INSERT, nv / 2, no - 1, 0, 1), 2);      /* existing */
     apply_ex(OP(K_INSERT, 1, 0, VO_NULL, 1), 2);          /* existing, NULL value offered */
     apply_ex(OP(K_ERASE, 0, no - 1, 0, 1), 2);
@@ -1062,7 +1098,8 @@ static void wfini(void)
 }
 
 static const char *const required[] = {
-    "op.insert.new", "op.insert.null-value", "clear.handed-over.null-value", "op.insert.existing.stored-null-value",
+    "op.insert.null-key", "op.find.null-key.present", "op.erase.null-key", "op.insert.existing.stored-null-key.other-key-object",
+    "clear.handed-over.null-key", "op.insert.new", "op.insert.null-value", "clear.handed-over.null-value", "op.insert.existing.stored-null-value",
     "op.find.present.null-value", "op.erase.present.null-value", "op.erase_iterator.null-value",
     "op.insert.existing.other-key-object", "op.insert.no-iterator", "op.insert.after-clear",
     "op.insert.new.below-all", "op.insert.new.above-all", "op.insert.new.between",
@@ -1076,6 +1113,7 @@ static const char *const required[] = {
 static const char *const required_clear[] = {
     "probe.clear-then-reuse", "probe.clear-null-callback-then-reuse", "probe.clear-then-reuse.random",
     "op.insert.null-value", "clear.handed-over.null-value",
+    "op.insert.null-key", "op.find.null-key.present", "op.erase.null-key", "clear.handed-over.null-key",
     "clear.handed-over", "op.clear.callback.several", "op.insert.after-clear", "op.erase.present",
     "op.erase_iterator", "closure.states", "closure.scopes-closed", "closure.probes", "random.histories", NULL
 };
